@@ -40,6 +40,8 @@ CHECKS = {
          "the generators of seven scenario families (init orders, invocation sequences, timeouts with holds, crash-point matrix, shutdown matrix, swarm, histories) are re-run under this check and the recorded platform events are judged: block structure and phase tags, one extension line per known extension with true state class and subscriptions, invoke-start/runtime-done multiplicity, success only where the driver's ground truth says the step succeeded, error type = first delivered fault; sampled"),
  "C17": ("exploration", "3 C17", "package-level deterministic simulation: the real directinvoke + bandwidthlimiter code on the fake clock with a recording writer, a planned payload reader and injected read / write errors and resets; stateless reference parser and token-bucket oracle",
          "seeded search over request sequences (1-4 per run after tape-drawn left-behind settings) with all optional headers absent / valid / invalid, payload sizes around the limit, chunkings and delays, read errors, broken invoker connections, resets and stuck bodies at any offset or instant, and (every third run) direct bucket parameters outside the header ranges; decides history-independent parsing and effective settings, prefix-faithful forwarding, Complete / Oversized / Truncated classification, the burst + rate x time bound at every write, and termination of copy and reset handshake; sampled"),
+ "C19": ("exploration", "3 C19", "deterministic simulation of the real LocalSupervisor over a simulated kernel (process table, groups, signals, wait statuses, pid reuse): tape-drawn process behaviours and concurrent Exec / Terminate / Kill, every system call a scheduling point; ground-truth oracle",
+         "seeded search over up to 5 concurrent processes (exit codes, fatal signals, TERM trapped / ignored, kill latencies up to beyond the deadline, children in the group, failed starts) and 6-25 overlapping supervisor requests with deadlines from the past to 20 s, under pid exhaustion and reuse, descheduled supervisor goroutines before system calls, a slow events consumer and lock-grant reordering; decides exactly one truthful event per started process, Kill success only after reaping and error only when the deadline really passed first, Terminate without waiting, group-wide delivery, no stray signals, unknown names and failed starts refused; sampled"),
  "C18": ("exploration", "3 C18", "full-stack deterministic simulation in snapshot mode on the fake clock: seeded orders of restore request, restore poll, hook completion / error / overrun / exit and credentials requests",
          "seeded search over the order of the operator's restore request(s) and the runtime's restore poll, hook outcome (completes, restore/error, init/error, overruns the hook timeout by 1 ms .. 2 s, exits, never polls), reported error types, and interleaved credentials requests with right, wrong and missing tokens; decides result, step and exact fake-clock instant of every restore, every credentials response and the absence of key variables from the runtime's environment; sampled"),
 }
